@@ -186,7 +186,7 @@ pub fn run_sweep(ctx: &Ctx, sw: &Sweep) -> Report {
             let cfg = Cfg::make(&mut rng, layers);
             let big = i % 4 == 3 || (ctx.thorough && i % 3 == 0);
             let o = GenOpts { max_files: 3, max_piece: if big { CONSTS.block + 50 } else { CONSTS.chunk + 50 },
-                max_total: if big { 5 << 20 } else { 400_000 }, long_name_chance: (0, 1), flushes: false };
+                max_total: if big { 5 << 20 } else { 400_000 }, long_name_chance: if CONSTS.scaled { (0, 1) } else { (1, 25) }, flushes: false };
             let ops = gen_valid_ops(&mut rng, &o);
             let b = build(&cfg, &ops);
             let cuts = boundary_cuts(&b.bytes, &cfg, &mut rng, if ctx.thorough { 200 } else { 25 });
